@@ -88,6 +88,13 @@ def record (s : XSt) : XSt := { s with executions := s.executions + 1 }
 def lastError (s : XSt) : Option Err :=
   if s.lastErr.isNone && s.ctxErr.isSome then s.ctxErr else s.lastErr
 
+/-- `IsCanceled`: the execution's own context is done — nothing else (in particular not the shared cancel cell: a Timeout that fired
+for one attempt leaves a result there that says nothing about a sibling attempt's context) -/
+def isCanceledFlag (s : XSt) : Bool := s.ctxErr.isSome
+/-- `IsHedge`, `LastResult` -/
+def isHedgeFlag (s : XSt) : Bool := s.isHedge
+def lastResult (s : XSt) : Int := s.lastVal
+
 /-- `CopyWithResult` -/
 def copyWithResult (s : XSt) (result : Option PR) : XSt :=
   match result with | none => s | some r => { s with lastVal := r.val, lastErr := r.err }
